@@ -72,7 +72,7 @@ def run(tier, seed):
         from props import c06
         swprogs = [p for p in progs if len(p.m['states']) <= (40 if quick else 400)]
         swcases, nsweeps, dropped = c06.sweeps_for(chk, swprogs, rng, 4, 2, out['root'], use_san=True)
-        swres, swst = runner.validate_sweeps(swcases, workers=4, parallel=4)
+        swres, swst = runner.validate_sweeps(swcases, workers=2, parallel=8)
         swacc = 0
         for c, (v, reps) in zip(swcases, swres):
             if v == 'ACCEPT':
